@@ -56,6 +56,7 @@ def violations (c : Cfg) (s : Script) (f : Final) : List String :=
   ++ chk f.dbClosed "db-left-open"
   ++ chk f.logClosed "log-left-open"
   ++ chk f.lockReleased "lock-held"
+  ++ chk (f.trace.all fun o => o.lockHeld == c.lock) "lock-not-held-during-run"
   ++ (if c.hooks then
         chk f.preRan "pre-hook-skipped"
         ++ (match f.postEnv with
